@@ -84,6 +84,30 @@ first_missed.update({
     "C18-r4m2": "tuple indices held only slices and integers",
     "C20-r4m1": "arrays stayed far below 2^18 values",
 })
+first_missed.update({
+    "C01-r5m1": "LinSolve matrices of the catalogue had no decoupled dofs (C06's pattern family has, but it does not differentiate)",
+    "C01-r5m3": "FilterConv was never given value overrides in the adjoint catalogue",
+    "C02-r5m1": "program atoms sliced 1-D signals only; 2-D sources were consumed whole",
+    "C03-r5m2": "source signals never had a pre-allocated sensitivity, and no cycle left non-finite values before a reset",
+    "C05-r5m1": "no negative definite class (Cholesky's LDL fall-back was reached by indefinite matrices only)",
+    "C05-r5m2": "initial guesses were drawn at the magnitude of the solution",
+    "C05-r5m3": "sparse storage was csc/csr/coo *matrices*, never scipy sparse *arrays*",
+    "C07-r5m2": "right-hand sides were O(1) on all dofs: the coupled part never was 1e-6 of the whole",
+    "C07-r5m3": "main/free dof sets were positive index arrays only",
+    "C08-r5m1": "the Young's modulus was real",
+    "C09-r5m1": "value overrides were given by slices; there was no model of a single overridden element",
+    "C09-r5m3": "DensityFilter radii stayed below 181 elements",
+    "C10-r5m1": "the general form with a_i > 0 was never used",
+    "C10-r5m2": "cCoef was left at its default and the penalty handed to the subproblem solver was not compared with it",
+    "C10-r5m3": "every objective changed from iteration to iteration (no pure feasibility problem)",
+    "C11-r5m2": "the mode keyword of the sparse symmetric path (buckling, Cayley) was never passed",
+    "C14-r5m3": "direction vectors on 3D domains always had three components",
+    "C16-r5m1": "NOT CAUGHT, and not decidable: the change differs from the original only for entries whose exact normalised value lies within one rounding error of the band limit ((7-0)/(100-0) rounds to the double 0.07, which is itself slightly above 7/100); the exact-rational oracle classifies such entries as ambiguous on purpose - demanding either answer would raise alarms on correct code",
+    "C17-r5m2": "every variable signal had at least one entry",
+    "C18-r5m3": "index arrays had at most a few dozen entries",
+    "C19-r5m3": "NOT CAUGHT: the extra summation error (about eps*sqrt(N)*|y||w|/dx) stays below the sound bound for the module's own rounding (16 eps per dependent entry) unless the sparse output has millions of entries; the allowance was tightened to the dependent entries and outputs of 7 000 entries were added, the measured effect there is 1e-3 of the allowance",
+    "C20-r5m2": "arrays were native-endian",
+})
 print("| id | defect (needs) | caught by (quick tier) | first evaluation |")
 print("|---|---|---|---|")
 for f in sorted(glob.glob(os.path.join(HERE, "seeded", "*", "meta.json"))):
